@@ -71,6 +71,7 @@ structure Env where
 structure St where
   cells : Array Val
   steps : Nat := 200000
+  tys : List (Nat × Ty) := []      -- declared type of a cell (for `x = {}` and similar typed contexts)
   deriving Inhabited
 
 inductive Flow where
@@ -150,6 +151,19 @@ partial def zeroOf (env : Env) : Ty → Option Val
     some (.comp (.ptr (.global k) [] :: fs))
   | .other "char" => some (.comp [])       -- explicit padding members (`char _padN[k]`): never read
   | _ => none
+
+/-- the type reached from `ty` by an access path (struct paths skip the tag element) -/
+def tyAtPath (env : Env) : Ty → List Nat → Option Ty
+  | t, [] => some t
+  | .arr e _, _ :: rest => tyAtPath env e rest
+  | .rt e, _ :: rest => tyAtPath env e rest
+  | .vec _ s, [_] => some (.s s)
+  | .mat _ i, _ :: rest => tyAtPath env (.vec i .f32) rest
+  | .struct k, i :: rest => do
+    let d ← env.structs[k]?
+    let f ← d.fields[i - 1]?
+    tyAtPath env f.2 rest
+  | _, _ => none
 
 /-! ## Value helpers -/
 
@@ -347,12 +361,19 @@ def commonRank2 (f : Val → Val → CM Val) (x y : Val) : CM Val := do
   let r := max (max (rank x) (rank y)) 1
   if r > 3 then throw (.stuck "operands are not scalars") else f (← toRank r x) (← toRank r y)
 
-def minMaxScalar (isMin : Bool) : Val → Val → CM Val := commonRank2 fun x y =>
+/-- min / max.  Floats: HLSL (IEEE minNum/maxNum in DXIL FMin/FMax) and MSL (fmin/fmax) return the
+other operand when one is NaN; GLSL leaves the result undefined. -/
+def minMaxScalar (d : Dialect) (isMin : Bool) : Val → Val → CM Val := commonRank2 fun x y =>
   match x, y with
   | .i32 a, .i32 b => pure (.i32 (if isMin then minS a b else maxS a b))
   | .u32 a, .u32 b => pure (.u32 (if isMin then minU a b else maxU a b))
   | .f32 a, .f32 b =>
-    pure (.f32 (if isMin then (if fcmp (· < ·) b a then b else a) else (if fcmp (· < ·) a b then b else a)))
+    let na := (f32OfBits a).isNaN
+    let nb := (f32OfBits b).isNaN
+    if na || nb then
+      if d == .glsl then throw (.ub "min/max with a NaN operand (undefined in GLSL)")
+      else pure (.f32 (if na then b else a))
+    else pure (.f32 (if isMin then (if fcmp (· < ·) b a then b else a) else (if fcmp (· < ·) a b then b else a)))
   | _, _ => throw (.stuck "min/max operands")
 
 def lessEq : Val → Val → CM Bool
@@ -423,13 +444,13 @@ def intrinsic (d : Dialect) (name : String) (args : List Val) : CM Val := do
   match d, name, args with
   -- all dialects
   | _, "abs", [x] => vmap (absScalar d) x
-  | _, "min", [x, y] => vzip (minMaxScalar true) x y
-  | _, "max", [x, y] => vzip (minMaxScalar false) x y
+  | _, "min", [x, y] => vzip (minMaxScalar d true) x y
+  | _, "max", [x, y] => vzip (minMaxScalar d false) x y
   | _, "clamp", [x, lo, hi] => do
     let chk ← vzip (fun l h => do pure (.bool (← commonRank2 (fun a b => do pure (.bool (← lessEq a b))) l h |>.bind (fun v => match v with | .bool b => pure b | _ => throw (.stuck "clamp"))))) lo hi
     let ok := match chk with | .bool b => b | .vec bs => bs.all (fun b => match b with | .bool true => true | _ => false) | _ => false
     if !ok && d != .hlsl then throw (.ub "clamp with minVal > maxVal") else
-    vzip (minMaxScalar true) (← vzip (minMaxScalar false) x lo) hi
+    vzip (minMaxScalar d true) (← vzip (minMaxScalar d false) x lo) hi
   | _, "all", [x] => match x with
     | .vec xs => do pure (.bool ((← xs.mapM (truth .hlsl)).all id))
     | x => do pure (.bool (← truth .hlsl x))
@@ -573,10 +594,13 @@ mutual
         let (bv, st) ← eval env (fuel - 1) scope b st
         pure (← cBin env.d op av bv, st)
     | .list [.atom "asg", .atom op, l, r] => do
-      let (rv, st) ← match r with
-        | .list (.atom "init" :: _) => throw (.unsupported "initializer list in assignment")
-        | r => eval env (fuel - 1) scope r st
       let (c, p, st) ← lval env (fuel - 1) scope l st
+      let (rv, st) ← match r with
+        | .list (.atom "init" :: _) => do
+          let cty ← opt ((st.tys.find? (·.1 == c)).map (·.2)) "declared type of the assigned variable"
+          let ty ← opt (tyAtPath env cty p) "type of the assigned place"
+          evalInit env (fuel - 1) scope ty r st
+        | r => eval env (fuel - 1) scope r st
       let root ← opt st.cells[c]? "cell"
       let old ← opt (getPath root p) "assignment path"
       let nv ← if op == "=" then pure rv else cBin env.d ((op.dropEnd 1).toString) old rv
@@ -714,7 +738,14 @@ mutual
       if flat.length = o * i then do
         let fs ← flat.mapM (cConvScalar .f32)
         pure (.comp ((List.range o).map (fun c => .vec ((fs.drop (c * i)).take i))))
-      else throw (.unsupported "matrix constructor form")
+      else match vs, flat with
+        | [v], [x] =>
+          -- GLSL / MSL matC(s): s on the diagonal, zero elsewhere
+          if isScalar v then do
+            let f ← cConvScalar .f32 x
+            pure (.comp ((List.range o).map (fun c => .vec ((List.range i).map (fun r => if r == c then f else .f32 0#32)))))
+          else throw (.unsupported "matrix constructor form")
+        | _, _ => throw (.unsupported "matrix constructor form")
     | .struct k => do
       let d ← opt env.structs[k]? "struct"
       if d.fields.length ≠ vs.length then throw (.stuck "struct constructor arity") else
@@ -819,7 +850,7 @@ mutual
       | (some x, _) =>
         let x ← coerceTo env p.ty (← usePoison x "argument")
         let c := st.cells.size
-        st := { st with cells := st.cells.push x }
+        st := { st with cells := st.cells.push x, tys := (c, p.ty) :: st.tys }
         fscope := (p.name, .cell c) :: fscope
       | (none, some (c, path)) => fscope := (p.name, .ref c path) :: fscope
       | _ => throw (.stuck "argument")
@@ -920,7 +951,7 @@ mutual
           | [e] => evalInit env (fuel - 1) scope ty e st
           | _ => pure (poison, st)
         let c := st.cells.size
-        pure (.next, (name, .cell c) :: scope, { st with cells := st.cells.push v })
+        pure (.next, (name, .cell c) :: scope, { st with cells := st.cells.push v, tys := (c, ty) :: st.tys })
     | .list [.atom "expr", e] => do
       let (_, st) ← eval env (fuel - 1) scope e st
       pure (.next, scope, st)
@@ -1041,7 +1072,8 @@ def isEntry (d : Dialect) (f : FuncDecl) : Bool :=
 
 /-- Run the (single) compute entry point of a parsed unit on the given buffers (binding ↦ words).
 Returns the final contents of every buffer. -/
-def runUnit (d : Dialect) (unit : Sexp) (inputs : List (Nat × List W)) (fuel : Nat := 20000) : CM (List (Nat × List W)) := do
+def runUnit (d : Dialect) (unit : Sexp) (inputs : List (Nat × List W)) (fuel : Nat := 20000) (entryName : Option String := none) :
+    CM (List (Nat × List W)) := do
   let items ← match unit with
     | .list (.atom "unit" :: xs) => pure xs
     | _ => throw (.stuck "not a translation unit")
@@ -1069,7 +1101,7 @@ def runUnit (d : Dialect) (unit : Sexp) (inputs : List (Nat × List W)) (fuel : 
         if isConst && !init.isEmpty then gscope := (name, .val v) :: gscope
         else
           let c := st.cells.size
-          st := { st with cells := st.cells.push v }
+          st := { st with cells := st.cells.push v, tys := (c, ty) :: st.tys }
           gscope := (name, .cell c) :: gscope
     | .list (.atom "block" :: .list qs :: .atom _ :: .atom inst :: fs) =>
       let quals := qualStrs qs
@@ -1080,8 +1112,13 @@ def runUnit (d : Dialect) (unit : Sexp) (inputs : List (Nat × List W)) (fuel : 
         gscope := (fname, .cell (← opt (bufCell b) s!"no input for binding {b}")) :: gscope
       | _ => throw (.unsupported "interface block with several members")
     | _ => pure ()
+  if d == .glsl then
+    let z3 : Val := .vec [.u32 0#32, .u32 0#32, .u32 0#32]
+    gscope := ("gl_LocalInvocationID", .val z3) :: ("gl_GlobalInvocationID", .val z3) :: ("gl_WorkGroupID", .val z3)
+      :: ("gl_LocalInvocationIndex", .val (.u32 0#32)) :: ("gl_NumWorkGroups", .val (.vec [.u32 1#32, .u32 1#32, .u32 1#32])) :: gscope
   let env := { env with gscope := gscope }
-  let entry ← opt (env.funcs.find? (isEntry d)) "no entry point"
+  let entry ← opt (env.funcs.find? (fun f => isEntry d f &&
+      (match entryName with | some n => f.name == n || f.name == n ++ "_" | none => true))) "no entry point"
   -- entry-point parameters
   let mut scope := gscope
   for p in entry.params do
